@@ -76,6 +76,30 @@ theorem C21_gen_mixed : nmixedFields Gen.C21.nsites =
 theorem C21_gen_closure_sigs : Gen.C21.nsites.map (·.sig) =
     [466884392, 795374539, 21859275, 50272419, 455696404, 764441253, 524937487, 619697803, 458577702, 386935145, 535813993, 885981287, 444058895, 172300378, 767631593, 782771734, 7556571, 299313599, 848691336, 545815731, 89238560, 431630024, 778016745, 514334579, 612670621, 488902839, 425252391, 513055951, 678024087, 205000059, 767430220, 36369494, 597050411, 520716555, 951884585, 188066533, 930593026, 22641283, 4494442, 4494442, 653478945, 180212798, 522739302, 198460818, 989201915, 941041163, 259687795, 887435623, 265794355, 490525033, 555195813, 639849528, 40892204, 137127415, 480743410, 973465280, 743604476, 456810378, 566789528, 959488150, 686428609, 531425231, 900874924, 692000778, 168296095, 473929906, 42004683, 398187897, 521177749, 62318329, 602812895, 776490465, 720360759, 538922687, 102607594, 769134116, 676685049, 941624431, 802556011, 463639215, 528297021, 583503412, 767509337, 636673794, 767509337, 636673794, 15493165, 15493165, 516455517, 965046069, 666280659] := by decide +kernel
 
+/-- reviewed allow-list: (function, field) pairs that assign a field of the snapshot structs OUTSIDE every
+    `History.Append` closure in code reachable from State/Arbiters.ProcessBlock, ProcessSpecialTxPayload (calls followed by name inside
+    the package, only along calls that are themselves outside closures).  Each entry is a write that a
+    rollback does not undo; the comments say which are confirmed findings. -/
+def allowedOutsideWrites : List (Txt × Txt) :=
+  [([65,114,98,105,116,101,114,115,46,103,101,116,83,111,114,116,101,100,80,114,111,100,117,99,101,114,115,87,105,116,104,82,97,110,100,111,109], [76,97,115,116,82,97,110,100,111,109,67,97,110,100,105,100,97,116,101,72,101,105,103,104,116]) /- Arbiters.getSortedProducersWithRandom .LastRandomCandidateHeight — random-candidate bookkeeping (DPoS 2.0) written while choosing arbiters: NOT restored by a rollback (DESIGN §8 row 10), not reached by the harness -/,
+   ([65,114,98,105,116,101,114,115,46,103,101,116,83,111,114,116,101,100,80,114,111,100,117,99,101,114,115,87,105,116,104,82,97,110,100,111,109], [76,97,115,116,82,97,110,100,111,109,67,97,110,100,105,100,97,116,101,79,119,110,101,114]) /- Arbiters.getSortedProducersWithRandom .LastRandomCandidateOwner — same -/,
+   ([83,116,97,116,101,46,99,111,117,110,116,65,114,98,105,116,114,97,116,111,114,115,73,110,97,99,116,105,118,105,116,121,86,48], [80,114,101,66,108,111,99,107,65,114,98,105,116,101,114,115]) /- State.countArbitratorsInactivityV0 .PreBlockArbiters — known finding C21-preblock-arbiters-* -/,
+   ([83,116,97,116,101,46,112,114,111,99,101,115,115,67,114,101,97,116,101,78,70,84], [78,70,84,73,68,73,110,102,111,72,97,115,104,77,97,112]) /- State.processCreateNFT .NFTIDInfoHashMap — NFT id map written before the Append of processCreateNFT: not restored; not reached by the harness (CreateNFT txs are not generated) -/,
+   ([83,116,97,116,101,46,112,114,111,99,101,115,115,68,101,112,111,115,105,116], [68,101,112,111,115,105,116,79,117,116,112,117,116,115]) /- State.processDeposit .DepositOutputs — deposit outputs index written outside the history (cf. C22-deposit-outputs-outside-history); register txs of the harness carry no deposit outputs -/,
+   ([100,101,103,114,97,100,97,116,105,111,110,46,73,110,97,99,116,105,118,101,77,111,100,101,83,119,105,116,99,104], [115,116,97,116,101]) /- degradation.InactiveModeSwitch .state — field-name collision: `degradation.state`, an object with its own RollbackTo, not a snapshot field -/,
+   ([100,101,103,114,97,100,97,116,105,111,110,46,82,101,115,101,116], [115,116,97,116,101]) /- degradation.Reset .state — same -/,
+   ([100,101,103,114,97,100,97,116,105,111,110,46,84,114,121,83,101,116,85,110,100,101,114,115,116,97,102,102,101,100], [115,116,97,116,101]) /- degradation.TrySetUnderstaffed .state — same -/]
+
+/-- T-gen `NoWritesOutside`: the regenerated list of outside-closure writes to snapshot fields is exactly the
+    reviewed list — a new direct write to snapshot state in the block-processing path breaks this lemma. -/
+theorem C21_gen_no_writes_outside : Gen.C21.outsideWrites = allowedOutsideWrites := by decide +kernel
+
+/-- T-gen: fields undone through more than one History object (`a.History` of Arbiters and `s.History` of State).
+    `Arbiters.RollbackTo` rolls `a.History` back completely before `s.History`, so changes to these fields at
+    different heights are not undone in reverse order (known finding C21-arbiters-noproducers for `NoProducers`). -/
+theorem C21_gen_shared_fields : nsharedFields Gen.C21.nsites =
+    [[78,111,80,114,111,100,117,99,101,114,115], [68,80,111,83,86,50,82,101,119,97,114,100,73,110,102,111,91,93], [78,101,101,100,78,101,120,116,84,117,114,110,68,80,79,83,73,110,102,111]] := by decide +kernel
+
 /-- **Generic theorem (rollback = direct build for well-paired sites).**  On a history that
     represents `chain` (`Good`, reachable by `C20_block_good`), if every block of the chain consists
     of well-paired site instances whose captures were taken on the pre-block state, `RollbackTo h`
